@@ -3,10 +3,11 @@ import SymmModel.Driver.SymH
 import SymmModel.Driver.HamH
 import SymmModel.Driver.TruncH
 import SymmModel.Driver.FermiOpsH
+import SymmModel.Driver.ReshapeH
 open Lean SymmModel.Driver
 
 /-- plug-in handlers of the self-contained property models are tried in order -/
-def handlers : List (String → Json → Option (D Json)) := [handleCore, handleSym, handleHam, handleTrunc, handleFermiOps]
+def handlers : List (String → Json → Option (D Json)) := [handleCore, handleSym, handleHam, handleTrunc, handleFermiOps, handleReshape]
 
 def handleLine (line : String) : Json :=
   match Json.parse line with
